@@ -835,6 +835,8 @@ def gen_section_case(rng):
             body[key] = rng.choice([3, 'v', 2.5, True] + ([['l', 2]] if key == 'p3' else []))
         if rng.random() < 0.3:
             body['params'] = {key: rng.choice([7, 'w']) for key in rng.sample(['g1', 'g2'], rng.randint(1, 2))}
+            if rng.random() < 0.4:  # a generic parameter that happens to be called like a section option stays a parameter
+                body['params']['provider'] = rng.choice(['@' + p for p in PROVIDERS if p] + ['nonsense'])
         sections[name] = body
     layers = [{group: dict(sections)}]
     index = {}
